@@ -578,6 +578,7 @@ func finish(chk *Check, tier string, seed int64, reps []*workerReport, errs []st
 	byScn := map[string]*agg{}
 	var order []string
 	var samples []interface{}
+	perScn := map[string]int{}
 	var viols []violation
 	seenV := map[string]bool{}
 	for _, r := range reps {
@@ -616,12 +617,14 @@ func finish(chk *Check, tier string, seed int64, reps []*workerReport, errs []st
 		}
 		a.BoundDone, a.BoundAsked = r.BoundDone, r.BoundAsked
 		for _, s := range r.Samples {
-			if len(samples) < 8 {
+			if perScn[r.Scenario] < 2 && len(samples) < 16 {
+				perScn[r.Scenario]++
 				samples = append(samples, map[string]interface{}{"scenario": r.Scenario, "case": s})
 			}
 		}
 		for _, s := range r.CustomSamples {
-			if len(samples) < 8 {
+			if perScn[r.Scenario] < 3 && len(samples) < 16 {
+				perScn[r.Scenario]++
 				samples = append(samples, map[string]interface{}{"scenario": r.Scenario, "case": s})
 			}
 		}
@@ -694,19 +697,23 @@ func finish(chk *Check, tier string, seed int64, reps []*workerReport, errs []st
 	if distinct == 0 {
 		distinct = states
 	}
+	rule := chk.Rule
+	if rule == "" {
+		rule = "schedule scenarios: every execution is one distinct choice sequence (schedule x environment answers x harness input) run on the real code, states = distinct choice sequences, transitions = scheduler steps; history scenarios: states = canonical states or distinct histories, transitions = operations applied; a case is non-trivial when it differs from every other case"
+	}
 	cov := map[string]interface{}{
 		"states":                        states,
 		"transitions":                   trans,
 		"traces_validated_against_impl": execs,
 		"evaluations":                   execs,
 		"distinct_nontrivial":           distinct,
-		"rule":                          chk.Rule,
+		"rule":                          rule,
 		"samples":                       samples,
 		"exhaustive":                    exhaustive,
 		"scenarios":                     aggs,
 		"distinct_outcome_kinds":        outcomeKinds,
 		"known_findings_reported":       knownLines,
-		"explanation":                   chk.Explain,
+		"explanation":                   chk.LevelText,
 	}
 	ev := map[string]interface{}{
 		"property_id": chk.ID,
